@@ -486,6 +486,8 @@ def _run_version(shard, acc):
             probes = [('%s_%d' % (fname, ncomp + 1 + rnd.randrange(5)), 'component-beyond-datatype'),
                       ('%s_1' % od, 'foreign-component'), ('%s_%d' % (ref[2], ncomp + 1), 'component-index-beyond'),
                       ('%s_1_99' % fname, 'subcomponent-beyond'), ('%s_1_1_1' % fname, 'path-too-long'),
+                      ('%s_%d_1' % (fname, ncomp + 1 + rnd.randrange(90)), 'subcomponent-path-through-missing-component'),
+                      ('%s_0_1' % fname, 'subcomponent-path-through-component-zero'),
                       ('%s_x' % fname, 'malformed'), ('%s_0' % fname, 'component-index-zero'), ('%s_-1' % fname, 'component-index-negative'),
                       ('%s_1_0' % fname, 'subcomponent-index-zero'), ('%s_0' % ref[2], 'component-name-index-zero'), ('%s_%d_1' % (rows[0][0] if rows[0][0] != fname else rows[-1][0], 1), 'path-of-other-field')]
             for bad, why in probes:
